@@ -41,6 +41,10 @@ PROPS = {
     "C37": dict(profile="C37", checked=["efos"], gen=None,
                 quick_cfgs=["default", "flushy", "flushy2", "manual"]),
     "C38": dict(profile="C38", checked=["ckpt"], gen=None,
+                # the known shape, built on purpose (the profile itself flushes before every ingest/excise)
+                finding_script=[{"op": "commit", "ops": [{"o": "set", "k": 1, "v": 1}], "sync": False},
+                                {"op": "ingest", "tables": [[{"o": "set", "k": 9, "v": 2}]], "ops": [{"o": "set", "k": 9, "v": 2}]},
+                                {"op": "checkpoint", "flushwal": False, "spans": []}],
                 quick_cfgs=["default", "flushy", "flushy2", "manual", "valsep", "bigvals"]),
     "C44": dict(profile="C44", checked=["latest", "snap", "view"], gen=["pt", "rk", "mt", "mt", "sn", "it", "ig"], itercls="view",
                 quick_cfgs=["valsep", "valsep1", "valsepman"], all_cfgs=["valsep", "valsep1", "valsepman"], note_blob=True),
@@ -205,6 +209,9 @@ def validate_files(run, files, checked, label):
         keep = os.path.join(run.outdir, os.path.basename(f))
         shutil.copy(f, keep)
         sig = {"kind": "trace-rejected", "op": ev.get("op"), "cls": ev.get("cls"), "label": label}
+        if ev.get("op") == "checkpoint":
+            from engines import crash   # the history-window classifier of the crash engine
+            sig["shape"] = crash.window_shape(f, line)[0]
         run.violation(sig, "%s: real trace rejected by KVTrace at line %d: %s" % (os.path.basename(f), line, json.dumps(ev)[:500]),
                       replay_obj={"trace": keep, "line": line, "checked": checked,
                                   "cmd": "python3 /verif/vcheck run %s --tier %s --seed %d" % (run.prop, run.tier, run.seed)})
@@ -371,6 +378,18 @@ def run_kv(run, prop=None):
         binding_demo(run, files, checked)
     if pp.get("exh"):
         run_exh(run, pp, binp, checked)
+    if pp.get("finding_script"):
+        # a scripted history that exhibits a recorded known finding: its rejection carries the finding's
+        # signature (KNOWN-FINDING line); once the code no longer shows it the trace is simply accepted
+        fdir = vlib.scratch("verif.kvfind.")
+        sf = os.path.join(fdir, "scripts.jsonl")
+        open(sf, "w").write(json.dumps(pp["finding_script"]) + "\n")
+        envf = dict(VERIF_OUT=fdir, VERIF_PROFILE=pp["profile"], VERIF_SEED=str(run.seed), VERIF_P=str(UNIV[0]), VERIF_S=str(UNIV[1]),
+                    VERIF_CONFIGS="manual", VERIF_SCRIPTFILE=sf, VERIF_SCRIPT_NCFG="1")
+        rc, outf = vlib.run_driver(binp, "TestScript", env=envf, timeout=600)
+        if "DRIVER-DONE" not in outf:
+            raise vlib.Inconclusive("dbdrv TestScript (finding script) died:\n" + outf[-2000:])
+        validate_files(run, sorted(glob.glob(os.path.join(fdir, "S-*.ndjson"))), checked, prop + "F")
     evals, distinct = stats(files, checked)
     run.cov["evaluations"] = evals
     run.cov["distinct_nontrivial"] = distinct
